@@ -62,3 +62,78 @@ def compare_owner(t4, P, expected, label_of=None, max_report=3):
         bad.append('point %s: owner should be %s, file says %s'
                    % (np.round(P[i], 6).tolist(), expected[i], lab[i]))
     return bad
+
+
+def t4_surface_fn(t4, sid):
+    """Function P -> value of SURF sid (TRANSFORM applied)."""
+    kind, p, tr = t4.surfs[sid]
+
+    def f(P):
+        Q = P
+        if tr is not None:
+            t = t4.transforms[tr]
+            M = np.array(t[3:]).reshape(3, 3)
+            Q = (P - np.array(t[:3])) @ M
+        return t4read.surf_f(kind, p, Q)
+    return f, t4read.surf_degree(kind)
+
+
+def used_surfaces(t4):
+    """SURF ids reachable from the non-virtual volumes."""
+    seen_v, surfs = set(), set()
+    stack = list(t4.nonvirtual())
+    while stack:
+        v = stack.pop()
+        if v in seen_v or v not in t4.vols:
+            continue
+        seen_v.add(v)
+        d = t4.vols[v]
+        surfs.update(d['plus']); surfs.update(d['minus'])
+        if d['op']:
+            stack.extend(d['op'][1])
+    return sorted(surfs)
+
+
+UNION_HELPERS = [(lambda P: P[:, 0] - 1.0, 1), (lambda P: P[:, 0] + 1.0, 1)]
+
+
+def identify_surfaces(t4, comps, allow_helpers=True):
+    """Match every used SURF of the file to one of the reference polynomial
+    components (same zero set: f_T4 = lambda * f_ref on a unisolvent set).
+    Returns (matches: sid -> (index, lambda), unmatched: [sid])."""
+    allc = list(comps) + (UNION_HELPERS if allow_helpers else [])
+    matches, unmatched = {}, []
+    for sid in used_surfaces(t4):
+        if sid not in t4.surfs:
+            continue
+        f, deg = t4_surface_fn(t4, sid)
+        hit = None
+        for i, (g, gdeg) in enumerate(allc):
+            d = max(deg, gdeg)
+            lam = geomdecide.identify(f, g, d)
+            if lam is not None:
+                hit = (i, lam)
+                break
+        if hit is None:
+            unmatched.append(sid)
+        else:
+            matches[sid] = hit
+    return matches, unmatched
+
+
+def compare_cells(t4, P, expected, max_report=3):
+    """expected: dict volume id -> boolean membership array (reference).
+    A volume missing from the file must be empty in the reference."""
+    E = t4read.Evaluator(t4, P)
+    bad = []
+    for vid, want in expected.items():
+        if vid in t4.vols and not t4.vols[vid]['fictive']:
+            got = E.inside(vid)
+        else:
+            got = np.zeros(len(P), bool)
+        w = np.where(got != want)[0]
+        for i in w[:max_report]:
+            bad.append('cell %s: point %s reference=%s file=%s%s'
+                       % (vid, np.round(P[i], 6).tolist(), bool(want[i]), bool(got[i]),
+                          '' if vid in t4.vols else ' (volume absent)'))
+    return bad
